@@ -123,8 +123,9 @@ func c04Gen(r *Rand, tier string, i int) Scenario {
 				n = rem
 			}
 			d := PickOf(r, 0, 0, 0, 1, 1, 50, 99, 100, 101, 250)
-			if r.Bool(0.01) {
-				d = 3100
+			if r.Bool(0.02) {
+				// around the periodic truncation check (every 3 s)
+				d = PickOf(r, 2900, 3000, 3100, 6050)
 			}
 			cf.Writes = append(cf.Writes, C04Write{DelayMs: d, Len: n})
 			rem -= n
